@@ -23,6 +23,8 @@ var corpus = []string{
 	// password chain, wrong old, same, scheme changes valid / invalid, foreign-parameter import
 	"W 1 imp:0:a:0:1:1:1;pw:k0:2:3;pw:k0:1:1;pw:k0:1:2;pw:k0:2:3;sch:k0:5;sch:k0:9;sch:k0:11;imp:1:b:0:1:1:2;imp:2:c:3:1:1:1;imp:3:d:0:9:1:1;rl;pw:k0:3:1",
 	"W 1 def:k0;lab:k0:x;pw:k0:1:2;del:k0:1;sch:k0:1;rl",
+	// metadata flagged default: into an empty wallet, into a wallet with a default; then the default moves back and forth
+	"W 1 imp:0:a:0:1:1:1:1;imp:1:b:0:1:1:1:1;imp:2:c:0:1:1:1:0;def:k2;def:k0;del:k1:1;rl;def:k2;del:k0:1",
 }
 
 var labelPool = []string{"a", "b", "c", "a_1", "-", "-", "zz"}
@@ -114,7 +116,10 @@ func gen(r *hx.Rand, tier string, i int) string {
 				if r.Chance(6) && prm != 0 {
 					ip = 3 - prm // the other low-cost set
 				}
-				ops = append(ops, fmt.Sprintf("imp:%d:%s:%d:%d:%d:%d", k, labelPool[r.Intn(len(labelPool))], alg, sch, pw, ip))
+				ops = append(ops, fmt.Sprintf("imp:%d:%s:%d:%d:%d:%d:%s", k, labelPool[r.Intn(len(labelPool))], alg, sch, pw, ip, hx.B(r.Chance(40))))
+				if r.Chance(35) && len(accts) > 0 { // move the default right after an import: before / after it in file order
+					ops = append(ops, "def:"+accts[r.Intn(len(accts))].ref)
+				}
 				accts = append(accts, acct{fmt.Sprintf("k%d", k), pw})
 			}
 		case x < 45:
